@@ -16,6 +16,25 @@ var v4IDs = []string{"192.0.2.7", "10.0.0.1", "127.0.0.1", "255.255.255.255", "0
 var v6IDs = []string{"2001:db8::7", "::1", "::ffff:192.0.2.7", "fe80::1", "2001:DB8::7", "2001:0db8:0000:0000:0000:0000:0000:0007", "::"}
 var weirdIDs = []string{"", "a b", "exa mple.com/../x", "[::1]", "1.2.3", "host:80", "%zz", "b\u00fccher.example", "K.example", "example.com/", "a@b", "#frag", "?q"}
 
+var unicodeIDs = []string{"\u212a.example", "\u017fub.example", "\u212a\u017f.example", "b\u00fccher.example", "example\u017f.com", "\xffk.example",
+	"\xe2\x84k.example", "\u212b.example", "\u0131.example", "K\u212ak.example"}
+
+// asciiFoldName replaces KELVIN SIGN by k/K and LONG S by s/S and drops every other non-ASCII byte.
+func asciiFoldName(r *c.Rng, v string) string {
+	var b []byte
+	for _, ru := range v {
+		switch {
+		case ru == 0x212a:
+			b = append(b, c.Pick(r, []byte("kK")))
+		case ru == 0x17f:
+			b = append(b, c.Pick(r, []byte("sS")))
+		case ru < 128:
+			b = append(b, byte(ru))
+		}
+	}
+	return string(b)
+}
+
 const alnum = "ABCDEFGHIJKLMNOPQRSTUVWXYZabcdefghijklmnopqrstuvwxyz0123456789"
 
 func genToken(r *c.Rng) string {
@@ -238,6 +257,7 @@ var dnsMuts = []string{
 	"exact", "exact", "exact", "among-others", "first-of-many", "last-of-50", "empty-set", "nil-set", "sp-suffix", "sp-prefix", "nl-suffix", "upper", "lower",
 	"swapcase", "trunc1", "pad-eq", "std-b64", "hex-digest", "raw-keyauth", "other-thumb", "other-token", "quoted", "split-two", "twice", "empty-string",
 	"prefix-x", "suffix-x", "token-only", "thumb-digest", "near-misses", "dup-exact", "flip-bit", "dot-suffix",
+	"trailing-bits", "inner-crlf", "inner-nl-others",
 }
 
 func dnsRecords(r *c.Rng, mut, token string, acct int) []string {
@@ -315,6 +335,15 @@ func dnsRecords(r *c.Rng, mut, token string, acct int) []string {
 		return []string{string(b)}
 	case "dot-suffix":
 		return []string{exp + "."}
+	case "trailing-bits": // same 32 bytes for a lenient base64 decoder: only the two unused low bits of the last character differ
+		const alpha = "ABCDEFGHIJKLMNOPQRSTUVWXYZabcdefghijklmnopqrstuvwxyz0123456789-_"
+		i := strings.IndexByte(alpha, exp[len(exp)-1])
+		return []string{exp[:len(exp)-1] + string(alpha[i^(1+r.Intn(3))])}
+	case "inner-crlf": // a lenient decoder skips CR and LF
+		i := 1 + r.Intn(len(exp)-1)
+		return []string{exp[:i] + "\r\n" + exp[i:]}
+	case "inner-nl-others":
+		return []string{junk[0], exp[:10] + "\n" + exp[10:], junk[2]}
 	}
 	return []string{exp}
 }
@@ -353,6 +382,10 @@ func genTLS(r *c.Rng, k *Case) {
 	if r.Chance(1, 25) {
 		k.Value, class = c.Pick(r, []string{"", "a b", "host:80", "1.2.3", "[::1]"}), "weird"
 	}
+	unicodeID := false
+	if r.Chance(1, 12) { // identifiers with runes whose case folding reaches ASCII (or does not), and broken UTF-8
+		k.Value, class, unicodeID = c.Pick(r, unicodeIDs), "dns", true
+	}
 	w := &TLSW{ServerProtos: []string{"acme-tls/1"}}
 	k.TLS = w
 	if r.Chance(3, 20) {
@@ -366,6 +399,10 @@ func genTLS(r *c.Rng, k *Case) {
 	if isIP {
 		w.IPs = []string{name}
 	} else {
+		w.DNS = []string{name}
+	}
+	if unicodeID { // a dNSName is an IA5String: present the ASCII name a client would obtain by folding
+		name = asciiFoldName(r, k.Value)
 		w.DNS = []string{name}
 	}
 	good := ExtSpec{OID: "acme", Critical: true, Value: octetString(sha(ka))}
@@ -531,8 +568,10 @@ func genCase(r *c.Rng) *Case {
 		genDNS(r, k)
 	case x < 80:
 		genTLS(r, k)
-	case x < 99:
+	case x < 92:
 		genDA(r, k)
+	case x < 99:
+		genWire(r, k)
 	default:
 		k.Typ = "unknown"
 		k.Value = "example.com"
@@ -592,5 +631,6 @@ func corner() []*Case {
 		}
 	}
 	out = append(out, cornerDA()...)
+	out = append(out, cornerWire()...)
 	return out
 }
